@@ -81,7 +81,10 @@ def run_case(ctx, family, params):
             for m, s in rows:
                 subj = f"{m}_{d}_{s}"
                 with ctx.guard("constructible", subj):
-                    g = AngularGrid(degree=d, method=m)  # default cache=True
+                    # method names are case-insensitive in the library (it lower-cases them): spell them in mixed case too
+                    spelled = [m, m.upper(), m.title(), m[0].upper() + m[1:]][(d + rep) % 4]
+                    g = AngularGrid(degree=d, method=spelled)  # default cache=True
+                    ctx.check("advertised-size", subj + ":method-echo", g.method == m, detail={"method": g.method, "spelled": spelled})
                     ctx.check("advertised-size", subj + ":after-other-methods", (int(g.degree), int(g.size), len(g.points)) == (d, s, s), detail={"got": [int(g.degree), int(g.size), len(g.points)], "round": rep})
         return
     m, d, s = family, params["degree"], params["size"]
